@@ -199,3 +199,76 @@ def trxcon_includes(bd):
 		with open(dst, "w") as f:
 			f.write('#pragma once\n#include "%s"\n' % os.path.join(LIBOSMO, "include", rel))
 	return [os.path.join(CDIR, "shim"), fwd, os.path.join(TRXCON, "include")]
+
+
+def compile_obj(bd, src, includes = (), defines = (), cflags = (), sanitize = True, timeout = 300):
+	""" One source -> one object (for TUs that need their own include path). """
+	obj = os.path.join(bd.path, os.path.basename(src) + ".%x.o" % (hash(src) & 0xffff))
+	cmd = ["clang"] + WARN + (SAN if sanitize else ["-g", "-O1"]) + ["-c", src, "-o", obj]
+	cmd += ["-I" + i for i in includes] + ["-D" + d for d in defines] + list(cflags)
+	try:
+		p = subprocess.run(cmd, stdout = subprocess.PIPE, stderr = subprocess.STDOUT, timeout = timeout, cwd = bd.path)
+	except subprocess.TimeoutExpired:
+		raise common.HarnessError("clang timed out building %s" % src)
+	if p.returncode != 0:
+		raise BuildFailed(src, p.stdout.decode(errors = "replace")[-3000:])
+	return obj
+
+
+def build_trxif(bd):
+	""" The real trx_if.c + harness shim + driver; gsm_utils.c (for
+	    gsm_arfcn2freq10) is compiled against the in-repo headers it belongs to. """
+	inc = trxcon_includes(bd)
+	gsm_utils = compile_obj(bd, os.path.join(LIBOSMO, "src/gsm/gsm_utils.c"),
+		includes = [os.path.join(LIBOSMO, "include"), libosmocore_config(bd)], cflags = GC[0])
+	return compile_link(bd, "trxif_drv",
+		[os.path.join(CDIR, "drivers/trxif_drv.c"), os.path.join(TRXCON, "src/trx_if.c"),
+		 os.path.join(CDIR, "shim/shim.c"), gsm_utils],
+		includes = inc, cflags = GC[0], ldflags = GC[1])
+
+
+class Session:
+	""" Interactive line-oriented session with a driver process. """
+
+	def __init__(self, binary, args = ()):
+		self.p = subprocess.Popen([binary] + list(args), stdin = subprocess.PIPE, stdout = subprocess.PIPE,
+			stderr = subprocess.PIPE, env = san_env())
+		self.dead = False
+
+	def op(self, line, end_prefixes):
+		""" Send one op; return the output lines up to and including the first
+		    line starting with one of end_prefixes.  None if the process died. """
+		if self.dead:
+			return None
+		try:
+			self.p.stdin.write(line.encode() + b"\n")
+			self.p.stdin.flush()
+		except (BrokenPipeError, OSError):
+			self.dead = True
+			return None
+		out = []
+		while True:
+			l = self.p.stdout.readline()
+			if not l:
+				self.dead = True
+				return None
+			l = l.decode(errors = "replace").rstrip("\n")
+			out.append(l)
+			if l.startswith(tuple(end_prefixes)):
+				return out
+
+	def close(self):
+		""" -> (returncode, stderr text) """
+		try:
+			self.p.stdin.close()
+		except Exception:
+			pass
+		try:
+			rc = self.p.wait(timeout = 20)
+		except subprocess.TimeoutExpired:
+			self.p.kill()
+			rc = self.p.wait()
+		err = self.p.stderr.read().decode(errors = "replace")
+		self.p.stdout.close()
+		self.p.stderr.close()
+		return rc, err
